@@ -22,6 +22,46 @@ mod tztable;
 mod util;
 
 use std::io::{BufRead, BufWriter, Write};
+use std::sync::Mutex;
+use std::time::Instant;
+
+/// The operation being executed (watchdog, crash attribution): a real-code call that does not return
+/// is a totality failure (C04: "after a bounded amount of work"), not something to wait for.
+static CURRENT_OP: Mutex<(String, Option<Instant>)> = Mutex::new((String::new(), None));
+
+/// Watchdog thread: an operation running longer than its limit ends the process with exit code 3 and
+/// `HANG <seconds> <op>` on stderr (check.py turns that into a violation naming the operation).
+/// Limits: `OH_OP_LIMIT_S` (default 300 s; 1800 s for the batch operations `pur.*` / `sun.scan*`).
+fn start_watchdog() {
+    let limit: u64 = std::env::var("OH_OP_LIMIT_S").ok().and_then(|s| s.parse().ok()).unwrap_or(300);
+    std::thread::spawn(move || loop {
+        std::thread::sleep(std::time::Duration::from_millis(500));
+        let g = CURRENT_OP.lock().unwrap_or_else(|e| e.into_inner());
+        if let Some(t0) = g.1 {
+            let lim = if g.0.starts_with("pur.") || g.0.starts_with("sun.scan") { limit.max(1800) } else { limit };
+            if t0.elapsed().as_secs() >= lim {
+                eprintln!("HANG {lim} {}", g.0);
+                std::process::exit(3);
+            }
+        }
+    });
+}
+
+fn note_op(line: &str) {
+    let mut g = CURRENT_OP.lock().unwrap_or_else(|e| e.into_inner());
+    g.0.clear();
+    g.0.push_str(line);
+    g.1 = Some(Instant::now());
+    drop(g);
+    // crash attribution (second run after an abort): the operation is written out before it runs
+    if let Ok(p) = std::env::var("OH_TRACE_OP") {
+        let _ = std::fs::write(p, line);
+    }
+}
+
+fn op_done() {
+    CURRENT_OP.lock().unwrap_or_else(|e| e.into_inner()).1 = None;
+}
 
 /// Execute one operation line (`<op> <args…>`, anything after ` => ` is ignored).
 fn exec_line(line: &str) -> String {
@@ -31,6 +71,7 @@ fn exec_line(line: &str) -> String {
     }
     let toks: Vec<&str> = line.split(' ').collect();
     let (op, args) = (toks[0], &toks[1..]);
+    note_op(line);
     let t0 = std::time::Instant::now();
     let res = if op == "c04.parse" || op.starts_with("c05.") || op.starts_with("c06.") {
         syn::exec(op, args)
@@ -61,6 +102,7 @@ fn exec_line(line: &str) -> String {
     } else {
         None
     };
+    op_done();
     let dt = t0.elapsed().as_secs_f64();
     if dt > 0.25 && !op.starts_with("pur.") && !op.starts_with("sun.scan") {
         eprintln!("slow-op {dt:.2}s {line}");
@@ -74,6 +116,7 @@ fn exec_line(line: &str) -> String {
 fn main() {
     let args: Vec<String> = std::env::args().collect();
     util::install_panic_hook();
+    start_watchdog();
     let out = std::io::stdout();
     let mut w = BufWriter::with_capacity(1 << 20, out.lock());
     match args.get(1).map(|s| s.as_str()) {
